@@ -218,6 +218,7 @@ package transaction
 //@ modifies *t, br.Err, br.uv, br.r.pos
 //@ opt frame off
 //@ ensures[reader] io.validR(br)
+//@ opt alloc-bound 16
 //@ ensures[witnesses] br.Err == nil ==> len(t.Scripts) == len(t.Signers)
 //@ loop 0 invariant io.validR(br) && len(t.Scripts) == nscripts
 //@ func (*Transaction).DecodeBinary
